@@ -28,7 +28,7 @@ ASSUMPTIONS = [
 ]
 TECHNIQUE = "reference-model + intrinsic runtime monitors (shares from respondent-level sums; additivity)"
 DESIGN_REF = "DESIGN.md 4 C15"
-WEIGHTS = ["none", "frac", "zeros", "float"]
+WEIGHTS = ["none", "frac", "zeros", "float", "scales", "tiny"]
 REQUIRED_REACH = ["share", "shares_add_to_one", "subtotal_share_is_sum_of_addends",
                   "strand_share", "class:inserted_row", "class:inserted_column",
                   "class:intersection", "class:numarr", "class:categorical_rows"]
